@@ -203,8 +203,17 @@ class MarginRule(cssrule.CSSRule):
             self.style = CSSStyleDeclaration(parentRule=self)
 
             if 'styletokens' in store:
+                styletokens = store['styletokens']
+                if isinstance(styletokens, list):
+                    # comments do not reach the store, the white space around
+                    # them does: keep a single S token of each run
+                    styletokens = [
+                        t
+                        for i, t in enumerate(styletokens)
+                        if not (t[0] == 'S' and i and styletokens[i - 1][0] == 'S')
+                    ]
                 # may raise:
-                self.style.cssText = store['styletokens']
+                self.style.cssText = styletokens
 
     cssText = property(
         fget=_getCssText,
